@@ -39,6 +39,7 @@ fn later_op() -> impl Strategy<Value = Op> {
         3 => any::<u16>().prop_map(Op::TailEdit),
         2 => any::<u16>().prop_map(Op::Rewrite),
         2 => any::<u16>().prop_map(Op::EditOldMtime),
+        2 => any::<u16>().prop_map(Op::MakeEmpty),
         2 => (any::<u16>(), any::<u16>(), any::<u16>(), any::<bool>()).prop_map(|(a, b, c, d)| Op::Move(a, b, c, d)),
         1 => Just(Op::StageAll),
         3 => Just(Op::CommitAll),
@@ -57,18 +58,20 @@ pub fn strategy() -> impl Strategy<Value = Case> {
         3 => Just(Step::Repo(Op::HotEdit)),
         2 => Just(Step::Repo(Op::HotTailEdit)),
         2 => Just(Step::Repo(Op::HotEditOldMtime)),
+        3 => Just(Step::Repo(Op::HotEmpty)),
         3 => Just(Step::Repo(Op::HotDelete)),
         2 => Just(Step::Repo(Op::CommitAll)),
         3 => Just(Step::UpdatePending),
         1 => later_op().prop_map(Step::Repo),
     ];
     // block mode: (touch the hot file, maybe commit, update) repeated, then touch it again
-    let blocks = (vec((0u8..4, any::<bool>()), 1..5), vec(0u8..4, 1..3)).prop_map(|(bl, fin)| {
+    let blocks = (vec((0u8..6, any::<bool>()), 1..5), vec(0u8..6, 1..3)).prop_map(|(bl, fin)| {
         let touch = |k: u8| match k {
             0 => Op::HotDelete,
             1 => Op::HotEdit,
             2 => Op::HotTailEdit,
-            _ => Op::HotEditOldMtime,
+            3 => Op::HotEditOldMtime,
+            _ => Op::HotEmpty,
         };
         let mut v = vec![];
         for (k, commit) in bl {
@@ -268,6 +271,7 @@ pub fn check(case: &Case, w: usize) -> CheckResult {
         .class_if(h.big || case.hot_big != 0, "big-file")
         .class_if(h.tail_edit, "tail-edit")
         .class_if(h.old_mtime, "edit-with-old-mtime")
+        .class_if(h.empty_file, "empty-file")
         .class_if(later_edits > 0, "later-edits")
         .inv(h.env.invocations))
 }
